@@ -744,3 +744,68 @@ func c15r8(rc *core.RC) {
 	}
 	rc.Check(applied, "encoder.(*Compiler).structCode/prunes-embedded", token.NoPos, "structCode prunes each embedded struct with the outer struct's tags")
 }
+
+// ---- C15.R9 the key length of a field set is the byte length of its key ----
+
+// The bitmap matchers count decoded key bytes and compare the count with structFieldSet.keyLen to
+// tell a complete key from a prefix of a field name. Every structFieldSet literal must therefore set
+// keyLen to int64(len(K)) with K the very expression its key field is set to: a count in characters
+// (len([]rune(K))) is smaller for non-ASCII names and lets a proper prefix select the field.
+func c15r9(rc *core.RC) {
+	p := rc.P
+	n := 0
+	for _, fd := range p.Funcs("decoder") {
+		if fd.Body == nil {
+			continue
+		}
+		info := p.Info(fd)
+		fn := p.FuncName(fd)
+		k := 0
+		ast.Inspect(fd.Body, func(m ast.Node) bool {
+			cl, ok := m.(*ast.CompositeLit)
+			if !ok {
+				return true
+			}
+			tv := info.Types[cl]
+			nt, ok := tv.Type.(*types.Named)
+			if !ok || nt.Obj().Name() != "structFieldSet" {
+				return true
+			}
+			var keyE, lenE ast.Expr
+			for _, el := range cl.Elts {
+				if kv, ok := el.(*ast.KeyValueExpr); ok {
+					if id, ok := kv.Key.(*ast.Ident); ok {
+						switch id.Name {
+						case "key":
+							keyE = kv.Value
+						case "keyLen":
+							lenE = kv.Value
+						}
+					}
+				}
+			}
+			if keyE == nil && lenE == nil {
+				return true
+			}
+			n++
+			k++
+			rc.Touch(fn)
+			key := fmt.Sprintf("%s/structFieldSet#%d keyLen", fn, k)
+			if keyE == nil || lenE == nil {
+				rc.Bad(key, cl.Pos(), "a field set is built with only one of key and keyLen")
+				return true
+			}
+			good := false
+			if conv, ok := core.Unparen(lenE).(*ast.CallExpr); ok && len(conv.Args) == 1 {
+				if c, ok := core.Unparen(conv.Args[0]).(*ast.CallExpr); ok && core.IsBuiltin(info, c, "len") && len(c.Args) == 1 {
+					good = types.ExprString(core.Unparen(c.Args[0])) == types.ExprString(core.Unparen(keyE))
+				}
+			}
+			rc.Check(good, key, cl.Pos(), "keyLen is `%s` for key `%s`: it must be the byte length of that same key (the matchers count bytes)", core.Src(p.Fset, lenE), core.Src(p.Fset, keyE))
+			return true
+		})
+	}
+	if n < 5 {
+		rc.Unknown("decoder/structFieldSet-literals", token.NoPos, "found %d structFieldSet literals with a key", n)
+	}
+}
